@@ -23,11 +23,11 @@ TECH = {
  "C10": "constant evaluation of git argument vectors and taint of their output (NUL protocol, one obligation per defect kind) + loop-shape dataflow (every path, per-commit trusted verifier)",
  "C11": "allocation-site provenance of always-succeeding verifiers + must-pass-through of the global-rule loop",
  "C12": "ordered must-pass-through gates in Apply + decision table of its consistency switch; who-may-write policy refs; argument provenance at 27 call sites; error-discipline lint",
- "C13": "per-store proof patterns on Delegations.Roles; refuse-before-mutate CFG rule; struct field bijections",
+ "C13": "per-store proof patterns on Delegations.Roles; refuse-before-mutate CFG rule; struct field bijections; guard rule on migration copies; must-pass-through on name registration; error-discipline lint",
  "C14": "writer/parser table extraction from AST and agreement check; guard rules on parser state machines",
- "C15": "type-switch exhaustiveness over rsl.Entry implementers; provenance; refspec constant evaluation",
- "C16": "compensation pairing on CFG (effect → compensator on every error path)",
- "C17": "argument identity (CAS old == parent) over SSA; interprocedural single-read rule; lock dominance",
+ "C15": "type-switch exhaustiveness over rsl.Entry implementers; provenance; refspec constant evaluation; exhaustive-scan rule on the annotation map used for reference tips; error-discipline lint",
+ "C16": "compensation pairing on CFG (effect → compensator on every error path, compensator restores the value read before the effect, unconditional reset primitive); error-discipline lint",
+ "C17": "argument identity (CAS old == parent) over SSA; must-pass-through on the compare-and-set primitive; interprocedural single-read rule; lock dominance; compensation rules of the multi-write operations",
  "C18": "dependency-set inclusion between compared and copied values; provenance of recorded fields",
  "C19": "sibling cross-check of verifyMergeable vs verifyEntry; guard and assignment rules on the relaxation flag; error-discipline lint",
  "C20": "name-table extraction from gopher-lua source + constant evaluation of the sandbox setup; CFG rules",
